@@ -42,6 +42,7 @@ type PubSpec struct {
 	QoS    byte
 	Retain bool
 	Clear  bool // retained with empty payload
+	Will   bool `json:",omitempty"` // published as the will of a client of that node whose connection breaks
 }
 
 // Scenario is one generated distribution + publishes.
@@ -83,6 +84,7 @@ func gen(rng *rand.Rand, npub int) Scenario {
 		case x < 3:
 			p.Retain, p.Clear = true, true
 		}
+		p.Will = !p.Clear && rng.Intn(5) == 0
 		sc.Pubs = append(sc.Pubs, p)
 	}
 	if rng.Intn(3) == 0 {
@@ -273,11 +275,29 @@ func run(t *triple, sc *Scenario) (fs []finding, obs map[string]int, rerr error)
 			pl = ""
 		}
 		payloads[i] = pl
-		if _, err := pubs[p.Node].Publish(&mqttx.Packet{Topic: p.Topic, QoS: p.QoS, Retain: p.Retain, Payload: []byte(pl)}, step); err != nil {
-			return nil, nil, err
-		}
-		if p.QoS == 0 {
-			_ = pubs[p.Node].Ping(step)
+		if p.Will {
+			// a will is published like any other message
+			wid := fmt.Sprintf("willer-%d-%d", p.Node, i)
+			w, err := wire.Dial(wid, nodes[p.Node].B.Addr, mqttx.V311)
+			if err != nil {
+				return nil, nil, err
+			}
+			if _, err := w.Connect(&mqttx.Packet{ClientID: wid, CleanStart: true, WillFlag: true, WillTopic: p.Topic, WillQoS: p.QoS, WillRetain: p.Retain, WillPayload: []byte(pl)}, step); err != nil {
+				return nil, nil, err
+			}
+			from := nodes[p.Node].B.Log.Len()
+			w.Close()
+			if _, ok := nodes[p.Node].B.Log.Wait(from, func(e broker.Event) bool { return e.Kind == "OnWillPublish" && e.Client == wid }, step); !ok {
+				return nil, nil, fmt.Errorf("will of %s not published", wid)
+			}
+			obs["publications_as_will_message"]++
+		} else {
+			if _, err := pubs[p.Node].Publish(&mqttx.Packet{Topic: p.Topic, QoS: p.QoS, Retain: p.Retain, Payload: []byte(pl)}, step); err != nil {
+				return nil, nil, err
+			}
+			if p.QoS == 0 {
+				_ = pubs[p.Node].Ping(step)
+			}
 		}
 		if p.Retain {
 			if p.Clear {
@@ -508,7 +528,39 @@ func run(t *triple, sc *Scenario) (fs []finding, obs map[string]int, rerr error)
 				obs["group_deliveries_spanning_nodes"]++
 			}
 			if n != 1 {
-				add(fmt.Sprintf("group.copies:got=%d:spanning=%v:retained=%v", n, len(nodesOf) > 1, p.Retain), fmt.Sprintf("message %s (topic %s, node %d) matched $share/%s/%s with %d members on %d nodes: %d members received it, want exactly 1", payloads[i], p.Topic, p.Node, parts[0], parts[1], len(members), len(nodesOf), n))
+				// what the known mechanisms need in order to manifest is part of the signature, so that another
+				// cause of the same symptom is still reported:
+				//  several copies of a non-retained message: some other node that holds a member of the group also has
+				//  is sent the message for another reason as well (rother); no copy: the message matches several groups (multi)
+				disc := ""
+				switch {
+				case n == 0:
+					disc = fmt.Sprintf(":multi=%v", len(groups) > 1)
+				case !p.Retain:
+					// rother: a node other than the origin that holds a member of this group is sent the message for
+					// another reason as well (a matching non-shared subscription or a member of another matching group)
+					rother := false
+					for nd := range nodesOf {
+						if nd == p.Node {
+							continue
+						}
+						if hasPlain(nd, p.Topic) {
+							rother = true
+						}
+						for k2, ms2 := range groups {
+							if k2 == k {
+								continue
+							}
+							for _, m2 := range ms2 {
+								if m2.node == nd {
+									rother = true
+								}
+							}
+						}
+					}
+					disc = fmt.Sprintf(":rother=%v", rother)
+				}
+				add(fmt.Sprintf("group.copies:got=%d:spanning=%v:retained=%v%s", n, len(nodesOf) > 1, p.Retain, disc), fmt.Sprintf("message %s (topic %s, node %d) matched $share/%s/%s with %d members on %d nodes: %d members received it, want exactly 1", payloads[i], p.Topic, p.Node, parts[0], parts[1], len(members), len(nodesOf), n))
 			}
 		}
 	}
@@ -544,6 +596,25 @@ func run(t *triple, sc *Scenario) (fs []finding, obs map[string]int, rerr error)
 }
 
 // Run is the entry point.
+// directedWill: a share group with one member on node 0 and one on node 1, a non-shared subscriber on node 0, and
+// publications on node 0 that alternate between ordinary PUBLISH packets and will messages, so that the
+// group's turn falls on the local and on the remote member for both kinds.
+func directedWill() Scenario {
+	sc := Scenario{Subs: []SubSpec{
+		{Node: 0, Client: 0, Filter: "a/b", Share: "g1", QoS: 1},
+		{Node: 1, Client: 0, Filter: "a/b", Share: "g1", QoS: 1},
+		{Node: 0, Client: 1, Filter: "a/b", QoS: 1},
+		{Node: 2, Client: 0, Filter: "b", QoS: 0},
+	}}
+	for i := 0; i < 9; i++ {
+		sc.Pubs = append(sc.Pubs, PubSpec{Node: 0, Topic: "a/b", QoS: byte(i % 3), Will: i%3 != 0})
+	}
+	for i := 0; i < 4; i++ {
+		sc.Pubs = append(sc.Pubs, PubSpec{Node: 1, Topic: "a/b", QoS: 1, Will: i%2 == 0})
+	}
+	return sc
+}
+
 // RedisCfgFault (set by the registration code) switches a configuration to the redis back end on a private fake
 // redis and returns arm(cmd, key): redis refuses the next such command with an error reply.
 var RedisCfgFault func(c *config.Config) (cleanup func(), arm func(cmd, key string), err error)
@@ -704,6 +775,7 @@ func Run(r *monitor.Run) {
 	for i := range scs {
 		scs[i] = gen(rng, r.Pick(20, 30))
 	}
+	scs[0] = directedWill()
 	r.InconBudget = 0.1
 	var next int64 = -1
 	r.Parallel(4, 4, func(w int) {
